@@ -31,6 +31,8 @@ func PanicMatches(kind string, r *Report) bool {
 		return r.PanicType == "map[string]int" && r.PanicValue == "map[boom:1]"
 	case "slicestruct":
 		return r.PanicType == "modsim.SliceStruct" && r.PanicValue == "{boom [a b]}"
+	case "moduleerror":
+		return r.PanicType == "*modules.ModuleError" && r.PanicValue == "boom-module-error"
 	case "ctxcanceled":
 		return r.PanicType == "*errors.errorString" && r.PanicValue == "context canceled"
 	case "ctxwrapped":
